@@ -27,11 +27,15 @@ namespace au {
 template <typename Rep, typename... BPs>
 constexpr bool can_scale_without_overflow(Magnitude<BPs...> m, Rep value) {
     // Scales that shrink don't cause overflow.
-    if (get_value<double>(m) <= 1.0) {
+    constexpr auto as_double = detail::get_value_result<double>(Magnitude<BPs...>{});
+    if (as_double.outcome == detail::MagRepresentationOutcome::OK && as_double.value <= 1.0) {
         (void)value;
         return true;
     } else {
-        return std::numeric_limits<Rep>::max() / get_value<Rep>(m) >= value;
+        // If `Rep` cannot even hold the scale factor, then no nonzero value can be scaled safely.
+        constexpr auto as_rep = detail::get_value_result<Rep>(Magnitude<BPs...>{});
+        return (as_rep.outcome == detail::MagRepresentationOutcome::OK) &&
+               (std::numeric_limits<Rep>::max() / as_rep.value >= value);
     }
 }
 
